@@ -171,10 +171,12 @@ type Pre struct {
 	HashComplete bool `json:"hash_complete"` // equal content => (equal usable hashes or remote.mod <= last)
 	ZeroHashEq   bool `json:"zero_hash_eq"`  // config: some equal pair carries a zero hash and remote.mod > last
 	FedEqNewer   bool `json:"fed_eq_newer"`  // fed: some equal pair has remote.mod > last
+	// keys of the equal pairs that carry a zero config hash with remote.mod > last (the recorded finding)
+	zeroKeys map[string]bool
 }
 
 func preconditions(inst string, st, remote []Item, last uint64) Pre {
-	p := Pre{NoDup: true, Consistent: true, HashSound: true, Disjoint: true, Equal: true, HashComplete: true}
+	p := Pre{NoDup: true, Consistent: true, HashSound: true, Disjoint: true, Equal: true, HashComplete: true, zeroKeys: map[string]bool{}}
 	seen := map[string]bool{}
 	for _, x := range st {
 		if isACL(inst) && x.ID == "" {
@@ -210,9 +212,10 @@ func preconditions(inst string, st, remote []Item, last uint64) Pre {
 			}
 			continue
 		}
-		if replicated(inst, x) {
-			lrep[key(x)] = x
+		if !replicated(inst, x) { // the hypotheses speak about the replicated part only
+			continue
 		}
+		lrep[key(x)] = x
 		if !both {
 			continue
 		}
@@ -226,6 +229,7 @@ func preconditions(inst string, st, remote []Item, last uint64) Pre {
 			p.HashComplete = false
 			if inst == "config" && (x.Hash64 == 0 || y.Hash64 == 0) {
 				p.ZeroHashEq = true
+				p.zeroKeys[key(x)] = true
 			}
 			if inst == "fed" {
 				p.FedEqNewer = true
@@ -303,7 +307,10 @@ func contentSet(inst string, l []Item) map[string]uint64 {
 
 // oracleRound: final is the secondary's table after the round; effLast the last index the round ran with.
 // writes reports whether some object of the replicated part was (re)written (nil when unknown).
-func oracleRound(inst string, st, remote, final []Item, effLast uint64, issuedDel, issuedUps int, pre Pre) (string, map[string]interface{}) {
+//
+// issuedDel / issuedUps: number of deletions / upserts the round issued; written: the keys of the objects it
+// (re)wrote, deleted: of those it removed.
+func oracleRound(inst string, st, remote, final []Item, effLast uint64, issuedDel, issuedUps int, written, deleted []string, pre Pre) (string, map[string]interface{}) {
 	if !pre.NoDup {
 		return "", nil
 	}
@@ -354,10 +361,54 @@ func oracleRound(inst string, st, remote, final []Item, effLast uint64, issuedDe
 	// (malformed) pairs are not judged -- except a config entry with a ZERO hash (stored before hashes
 	// existed), which is a real state: that one is reported (and is a recorded finding).
 	if pre.Equal && (issuedDel > 0 || issuedUps > 0) && inst != "fed" && (pre.HashComplete || pre.ZeroHashEq) {
-		sig := map[string]interface{}{"kind": "rewrite-of-equal", "instance": inst, "zero_hash": pre.ZeroHashEq}
+		// the recorded finding, and nothing else: no deletion, and every write is the rewrite of an equal pair
+		// that carries a zero hash and is newer than last
+		onlyZero := pre.ZeroHashEq && issuedDel == 0 && len(deleted) == 0 && len(written) == issuedUps
+		for _, k := range written {
+			if !pre.zeroKeys[k] {
+				onlyZero = false
+			}
+		}
+		sig := map[string]interface{}{"kind": "rewrite-of-equal", "instance": inst, "only_zero_hash_pairs_rewritten": onlyZero}
 		return fmt.Sprintf("rewrite-of-equal:writes=%d", issuedDel+issuedUps), sig
 	}
 	return "", nil
+}
+
+func issuedKeys(inst string, d Diff) (written, deleted []string) {
+	for _, x := range d.Del {
+		if !(inst == "config" && unhx(x.Kind) == exported) {
+			deleted = append(deleted, key(x))
+		}
+	}
+	for _, x := range d.Ups {
+		if !(inst == "config" && unhx(x.Kind) == exported) {
+			written = append(written, key(x))
+		}
+	}
+	return
+}
+
+// changedKeys: what a real round did to the table, read off the modify indexes (a write re-stamps the object
+// with a raft index of the secondary, which the hook keeps above every index the generators use)
+func changedKeys(st, final []Item) (written, deleted []string) {
+	before := map[string]Item{}
+	for _, x := range st {
+		before[key(x)] = x
+	}
+	after := map[string]bool{}
+	for _, z := range final {
+		after[key(z)] = true
+		if x, ok := before[key(z)]; !ok || x.Mod != z.Mod {
+			written = append(written, key(z))
+		}
+	}
+	for _, x := range st {
+		if !after[key(x)] {
+			deleted = append(deleted, key(x))
+		}
+	}
+	return
 }
 
 func issuedCounts(inst string, d Diff) (int, int) {
@@ -395,8 +446,14 @@ type Case struct {
 	Remote      []Item                 `json:"remote"`
 	Last        uint64                 `json:"last"`
 	RemoteIndex uint64                 `json:"remote_index"`
-	Out         *Diff                  `json:"out,omitempty"`
-	Round       *Round                 `json:"round,omitempty"`
+	// round2 / twosnap: a later snapshot of the primary for the second round; twosnap: what the batch reads of
+	// the first round are answered from
+	Remote2      []Item `json:"remote2,omitempty"`
+	RemoteIndex2 uint64 `json:"remote_index2,omitempty"`
+	Batch        []Item `json:"batch,omitempty"`
+	Out          *Diff  `json:"out,omitempty"`
+	Round        *Round `json:"round,omitempty"`
+	Round2       *Round `json:"round2,omitempty"`
 	Pre         Pre                    `json:"pre"`
 	Oracle      string                 `json:"oracle"`
 	Sig         map[string]interface{} `json:"signature,omitempty"`
@@ -429,15 +486,21 @@ func eval(c *Case) error {
 		c.Pre = preconditions(c.Inst, c.Local, c.Remote, c.Last)
 		final := applyDiff(c.Inst, c.Local, c.Remote, d)
 		nd, nu := issuedCounts(c.Inst, d)
-		c.Oracle, c.Sig = oracleRound(c.Inst, c.Local, c.Remote, final, c.Last, nd, nu, c.Pre)
-	case "round":
+		w, dl := issuedKeys(c.Inst, d)
+		c.Oracle, c.Sig = oracleRound(c.Inst, c.Local, c.Remote, final, c.Last, nd, nu, w, dl, c.Pre)
+	case "round", "round2", "twosnap":
 		if srv == nil {
 			var err error
 			if srv, err = consul.VerifReplNewServer(); err != nil {
 				return err
 			}
 		}
-		r, err := srv.Round(c.Inst, raws(c.Local), raws(c.Remote), c.RemoteIndex, c.Last)
+		c.Round2 = nil
+		opts := consul.VerifReplOpts{}
+		if c.Kind == "twosnap" {
+			opts = consul.VerifReplOpts{TwoSnapshots: true, Batch: raws(c.Batch)}
+		}
+		r, err := srv.RoundOpts(c.Inst, raws(c.Local), raws(c.Remote), c.RemoteIndex, c.Last, opts)
 		if err != nil {
 			return err
 		}
@@ -447,9 +510,22 @@ func eval(c *Case) error {
 			eff = 0 // the primary was rebuilt: the round must do a full sync
 		}
 		c.Pre = preconditions(c.Inst, c.Local, c.Remote, eff)
+		if c.Kind == "twosnap" {
+			return evalTwoSnap(c)
+		}
 		if r.Err != "" || r.Exit {
 			c.Oracle = "round-failed:" + r.Err
-			c.Sig = map[string]interface{}{"kind": "round-failed", "instance": c.Inst}
+			c.Sig = map[string]interface{}{"kind": "round-failed", "instance": c.Inst, "cause": refusalCause(c), "refused_with": refusedWith(r.Err)}
+			if c.Kind == "round2" || c.Sig["cause"] == "" {
+				return nil
+			}
+			// a refused write: is it transient? run the retry the replicator would run (last = 0)
+			r2, err := srv.RoundOpts(c.Inst, nil, raws(c.Remote), c.RemoteIndex, 0, consul.VerifReplOpts{Keep: true})
+			if err != nil {
+				return err
+			}
+			c.Round2 = &Round{Final: froms(r2.Final), RetIndex: r2.RetIndex, Exit: r2.Exit, Err: r2.Err, Calls: r2.Calls, Writes: r2.Writes}
+			c.Sig["retry_fails_too"] = r2.Err != ""
 			return nil
 		}
 		if r.RetIndex != c.RemoteIndex {
@@ -457,10 +533,244 @@ func eval(c *Case) error {
 			c.Sig = map[string]interface{}{"kind": "wrong-index", "instance": c.Inst}
 			return nil
 		}
-		// writes = raft log entries the round appended in the secondary
-		c.Oracle, c.Sig = oracleRound(c.Inst, c.Local, c.Remote, c.Round.Final, eff, int(r.Writes), 0, c.Pre)
+		written, deleted := changedKeys(c.Local, c.Round.Final)
+		nd, nu := len(deleted), len(written)
+		if r.Writes > 0 && nd+nu == 0 {
+			nu = int(r.Writes)
+		}
+		c.Oracle, c.Sig = oracleRound(c.Inst, c.Local, c.Remote, c.Round.Final, eff, nd, nu, written, deleted, c.Pre)
+		if c.Kind == "round2" && c.Oracle == "" {
+			return evalSecondRound(c)
+		}
 	default:
 		return fmt.Errorf("unknown case kind %q", c.Kind)
+	}
+	return nil
+}
+
+// modelCovers: the Coq model predicts this case's observables. Refused writes are modelled for policies and
+// roles (unique names) only; a failing config / second round, and ensureRemoteConsistent (policy batch reads
+// from another snapshot), are judged by the oracle alone.
+func modelCovers(c *Case) bool {
+	switch c.Kind {
+	case "diff":
+		return true
+	case "round":
+		return c.Round.Err == "" || c.Inst == "policy" || c.Inst == "role"
+	case "round2":
+		return c.Round.Err == "" && c.Round2 != nil && c.Round2.Err == ""
+	case "twosnap":
+		return c.Inst == "token" && c.Round.Err == "" && c.Round2 != nil && c.Round2.Err == ""
+	}
+	return false
+}
+
+func attrOf(x Item) uint64 { return (x.Body >> 20) & 7 }
+
+// refusalCause names the input shape of a round the state store is known to refuse (recorded findings); ""
+// when the case has none of them.
+//
+//	name-held-by-other-id: (policy, role) an object to upsert takes a shared name that, at that point of
+//	    the id-ordered batch, another id of the secondary holds
+//	dependent-kinds-together: (config) the round issues, in (kind, name) order, writes of entries whose
+//	    validity depends on each other (service-defaults protocol <-> service-router / ingress-gateway)
+func refusalCause(c *Case) string {
+	switch c.Inst {
+	case "policy", "role":
+		d, err := realDiff(c.Inst, view(c.Local), c.Remote, effLast(c))
+		if err != nil {
+			return ""
+		}
+		gone := map[string]bool{}
+		for _, x := range d.Del {
+			gone[x.ID] = true
+		}
+		names := map[string]uint64{} // id -> shared name held (0 none)
+		for _, x := range c.Local {
+			if !gone[x.ID] {
+				names[x.ID] = attrOf(x)
+			}
+		}
+		for _, u := range d.Ups { // walk order = id order = batch order
+			for _, y := range c.Remote {
+				if y.ID != u.ID {
+					continue
+				}
+				if n := attrOf(y); n != 0 {
+					for id, held := range names {
+						if id != y.ID && held == n {
+							return "name-held-by-other-id"
+						}
+					}
+				}
+				names[y.ID] = attrOf(y)
+			}
+		}
+	case "config":
+		d, err := realDiff(c.Inst, c.Local, c.Remote, effLast(c))
+		if err != nil {
+			return ""
+		}
+		dep := func(k string) bool { return k == "service-router" || k == "ingress-gateway" }
+		hasDep, hasProto := map[string]bool{}, map[string]bool{}
+		for _, l := range [][]Item{d.Del, d.Ups} {
+			for _, x := range l {
+				if dep(unhx(x.Kind)) {
+					hasDep[x.ID] = true
+				}
+				if unhx(x.Kind) == "service-defaults" {
+					hasProto[x.ID] = true
+				}
+			}
+		}
+		for _, l := range [][]Item{c.Local, c.Remote} { // a dependent entry that stays also constrains the writes
+			for _, x := range l {
+				if dep(unhx(x.Kind)) {
+					hasDep[x.ID] = true
+				}
+			}
+		}
+		for n := range hasDep {
+			if hasProto[n] {
+				return "dependent-kinds-together"
+			}
+		}
+	}
+	return ""
+}
+
+// refusedWith classifies the error text of a failed round
+func refusedWith(e string) string {
+	switch {
+	case strings.Contains(e, "with name") && strings.Contains(e, "already exists"):
+		return "name-exists"
+	case strings.Contains(e, "does not permit advanced routing or splitting behavior"),
+		strings.Contains(e, "does not match defined listener protocol"):
+		return "chain-protocol"
+	}
+	return "other"
+}
+
+func effLast(c *Case) uint64 {
+	if c.RemoteIndex < c.Last {
+		return 0
+	}
+	return c.Last
+}
+
+// evalSecondRound: round 2 on the state round 1 left, with last := the index round 1 returned, against a later
+// snapshot (or the same one).  No hypothesis about `last` is supplied by the generator here: the code has to
+// have produced it.
+func evalSecondRound(c *Case) error {
+	last2 := c.Round.RetIndex
+	r2, err := srv.RoundOpts(c.Inst, nil, raws(c.Remote2), c.RemoteIndex2, last2, consul.VerifReplOpts{Keep: true})
+	if err != nil {
+		return err
+	}
+	c.Round2 = &Round{Final: froms(r2.Final), RetIndex: r2.RetIndex, Exit: r2.Exit, Err: r2.Err, Calls: r2.Calls, Writes: r2.Writes}
+	if r2.Err != "" || r2.Exit {
+		c.Oracle = "second-round-failed:" + r2.Err
+		c.Sig = map[string]interface{}{"kind": "round-failed", "instance": c.Inst, "cause": "", "round": 2}
+		return nil
+	}
+	if r2.RetIndex != c.RemoteIndex2 {
+		c.Oracle = fmt.Sprintf("wrong-index-returned:%d", r2.RetIndex)
+		c.Sig = map[string]interface{}{"kind": "wrong-index", "instance": c.Inst, "round": 2}
+		return nil
+	}
+	if !c.Pre.NoDup || !c.Pre.Consistent || !c.Pre.HashSound {
+		return nil // round 1 was not judged, so round 2 starts from an unknown state
+	}
+	want, got := contentSet(c.Inst, c.Remote2), contentSet(c.Inst, c.Round2.Final)
+	for k, b := range want {
+		if gb, ok := got[k]; !ok || gb != b {
+			c.Oracle = "second-round-not-converged:" + k
+			c.Sig = map[string]interface{}{"kind": "not-converged", "instance": c.Inst, "round": 2}
+			return nil
+		}
+	}
+	for k := range got {
+		if _, ok := want[k]; !ok {
+			c.Oracle = "second-round-not-converged:extra:" + k
+			c.Sig = map[string]interface{}{"kind": "not-converged", "instance": c.Inst, "round": 2}
+			return nil
+		}
+	}
+	same := len(c.Remote) == len(c.Remote2)
+	if same {
+		m := map[string]Item{}
+		for _, y := range c.Remote {
+			m[key(y)] = y
+		}
+		for _, y := range c.Remote2 {
+			if m[key(y)] != y {
+				same = false
+			}
+		}
+	}
+	if same && r2.Writes > 0 { // every instance, whatever the hashes: nothing is newer than the returned index
+		c.Oracle = fmt.Sprintf("second-round-rewrites-unchanged:writes=%d", r2.Writes)
+		c.Sig = map[string]interface{}{"kind": "rewrite-of-equal", "instance": c.Inst, "round": 2}
+	}
+	return nil
+}
+
+// evalTwoSnap: round 1 listed c.Remote but its batch reads were answered from c.Batch; round 2 sees ONE later
+// snapshot c.Remote2 with last := what round 1 returned (0 after an error, as Replicator.Run does).  Expected:
+// the secondary equals c.Remote2 afterwards.
+func evalTwoSnap(c *Case) error {
+	last2 := c.Round.RetIndex
+	if c.Round.Err != "" {
+		last2 = 0
+	}
+	r2, err := srv.RoundOpts(c.Inst, nil, raws(c.Remote2), c.RemoteIndex2, last2, consul.VerifReplOpts{Keep: true})
+	if err != nil {
+		return err
+	}
+	c.Round2 = &Round{Final: froms(r2.Final), RetIndex: r2.RetIndex, Exit: r2.Exit, Err: r2.Err, Calls: r2.Calls, Writes: r2.Writes}
+	if r2.Err != "" {
+		c.Oracle = "second-round-failed:" + r2.Err
+		c.Sig = map[string]interface{}{"kind": "round-failed", "instance": c.Inst, "cause": "", "round": 2}
+		return nil
+	}
+	if !c.Pre.NoDup || !c.Pre.Consistent || !c.Pre.HashSound {
+		return nil
+	}
+	// did round 1 succeed while writing an OLDER version than the one it listed?
+	older := map[string]bool{}
+	if c.Round.Err == "" {
+		lst := map[string]Item{}
+		for _, y := range c.Remote {
+			lst[key(y)] = y
+		}
+		for _, b := range c.Batch {
+			if y, ok := lst[key(b)]; ok && b.Mod < y.Mod && b.Body != y.Body {
+				for _, z := range c.Round.Final {
+					if key(z) == key(b) && z.Body == b.Body {
+						older[key(b)] = true
+					}
+				}
+			}
+		}
+	}
+	want, got := contentSet(c.Inst, c.Remote2), contentSet(c.Inst, c.Round2.Final)
+	bad, onlyOlder := "", true
+	for k, b := range want {
+		if gb, ok := got[k]; !ok || gb != b {
+			bad = k
+			if !older[k] {
+				onlyOlder = false
+			}
+		}
+	}
+	for k := range got {
+		if _, ok := want[k]; !ok {
+			bad, onlyOlder = k, false
+		}
+	}
+	if bad != "" {
+		c.Oracle = "stale-after-two-snapshot-round:" + bad
+		c.Sig = map[string]interface{}{"kind": "stale-batch-read-sticks", "instance": c.Inst, "only_older_batch_versions": onlyOlder}
 	}
 	return nil
 }
@@ -468,11 +778,12 @@ func eval(c *Case) error {
 // shrink: delta debugging over the two object lists (remove chunks of halving size while the oracle keeps
 // failing with the same kind), with a budget of implementation runs.
 func shrink(c Case) Case {
-	kind := func(c *Case) string {
+	kind := func(c *Case) string { // what must stay the same while shrinking: the kind AND the recorded input shape
 		if c.Sig == nil {
 			return ""
 		}
-		return fmt.Sprint(c.Sig["kind"])
+		return fmt.Sprint(c.Sig["kind"], "|", c.Sig["cause"], "|", c.Sig["refused_with"], "|",
+			c.Sig["only_zero_hash_pairs_rewritten"], "|", c.Sig["only_older_batch_versions"], "|", c.Sig["round"])
 	}
 	want := kind(&c)
 	if want == "" {
@@ -710,7 +1021,8 @@ func runTable(sc Scope, hist map[string]int) (Table, error) {
 		pre := preconditions(sc.Inst, local, remote, last)
 		final := applyDiff(sc.Inst, local, remote, d)
 		nd, nu := issuedCounts(sc.Inst, d)
-		o, sig := oracleRound(sc.Inst, local, remote, final, last, nd, nu, pre)
+		w, dl := issuedKeys(sc.Inst, d)
+		o, sig := oracleRound(sc.Inst, local, remote, final, last, nd, nu, w, dl, pre)
 		if pre.Consistent && pre.HashSound {
 			t.Stats["round_hypotheses_hold"]++
 		}
@@ -749,7 +1061,7 @@ type gen struct {
 func (g *gen) hashOf(body uint64, it *Item) {
 	switch {
 	case isACL(g.inst):
-		it.Hash = hex.EncodeToString([]byte{byte(body), byte(body >> 8), 0x5a})
+		it.Hash = hex.EncodeToString([]byte{byte(body), byte(body >> 8), byte(body >> 16), byte(body >> 20), 0x5a})
 	case g.inst == "config":
 		it.Hash64 = 1000 + body
 	}
@@ -872,6 +1184,180 @@ func (g *gen) equal(n int) (st, remote []Item, last uint64) {
 		st, remote = append(st, l), append(remote, r)
 	}
 	return g.perm(st), g.perm(remote), last
+}
+
+// rename (policies, roles): objects carry a shared name (attribute k in 1..3) or an id-derived one (0); names are
+// unique inside each side, as the state store demands; at the primary names were moved around after `last`
+// (swapped, shifted along a chain, freed by a deletion and taken by a new object).
+func (g *gen) rename() (st, remote []Item, last uint64) {
+	last = uint64(8 + g.r.Intn(8))
+	keys := g.keys(2 + g.r.Intn(3))
+	content := uint64(1)
+	next := func() uint64 { content++; return content }
+	assign := func(n int) []uint64 { // an injective choice of names (0 may repeat)
+		pool := []uint64{1, 2, 3}
+		g.r.Shuffle(3, func(i, j int) { pool[i], pool[j] = pool[j], pool[i] })
+		out := make([]uint64, n)
+		used := 0
+		for i := range out {
+			if used < 3 && g.r.Intn(4) != 0 {
+				out[i] = pool[used]
+				used++
+			}
+		}
+		return out
+	}
+	before, after := assign(len(keys)), assign(len(keys))
+	if g.r.Intn(3) == 0 && len(keys) >= 2 { // a plain swap of the first two
+		before[0], before[1] = 1, 2
+		after[0], after[1] = 2, 1
+		for i := 2; i < len(keys); i++ {
+			if before[i] != 3 {
+				before[i] = 0
+			}
+			if after[i] != 3 {
+				after[i] = 0
+			}
+		}
+	}
+	for i, k := range keys {
+		l, r := k, k
+		c := next()
+		g.hashOf(c|before[i]<<20, &l)
+		l.Mod = uint64(1 + g.r.Intn(int(last)))
+		switch {
+		case before[i] != after[i] || g.r.Intn(4) == 0: // renamed (or otherwise changed) after last
+			g.hashOf(next()|after[i]<<20, &r)
+			r.Mod = last + 1 + uint64(g.r.Intn(4))
+			if g.r.Intn(6) == 0 { // deleted at the primary instead: its name becomes free
+				st = append(st, l)
+				continue
+			}
+		default:
+			g.hashOf(c|before[i]<<20, &r)
+			r.Mod = uint64(1 + g.r.Intn(int(last)))
+		}
+		if g.r.Intn(8) == 0 { // new at the primary
+			r.Mod = last + 1 + uint64(g.r.Intn(4))
+			remote = append(remote, r)
+			continue
+		}
+		st, remote = append(st, l), append(remote, r)
+	}
+	return g.perm(st), g.perm(remote), last
+}
+
+// dependent (config entries): per service name a valid combination of service-defaults (tcp or http),
+// service-router and ingress-gateway (both need http); the two sides are chosen independently, so dependent
+// entries are created / deleted / changed together with what they depend on.
+func (g *gen) dependent() (st, remote []Item, last uint64) {
+	last = 5
+	side := func(modBase uint64) []Item {
+		var defs, deps []Item
+		for _, name := range []string{"a", "b"} {
+			mk := func(kind string, content, attr uint64) Item {
+				x := Item{Kind: hx(kind), ID: hx(name)}
+				g.hashOf(content|attr<<20, &x)
+				x.Mod = modBase + uint64(g.r.Intn(4))
+				return x
+			}
+			switch g.r.Intn(6) {
+			case 0:
+			case 1:
+				defs = append(defs, mk("service-defaults", 1, 0))
+			case 2:
+				defs = append(defs, mk("service-defaults", 2, 1))
+			case 3:
+				defs, deps = append(defs, mk("service-defaults", 2, 1)), append(deps, mk("service-router", 3, 0))
+			case 4:
+				defs, deps = append(defs, mk("service-defaults", 2, 1)), append(deps, mk("ingress-gateway", 4, 0))
+			default:
+				defs = append(defs, mk("service-defaults", 2, 1))
+				deps = append(deps, mk("service-router", 3, 0), mk("ingress-gateway", 4, 0))
+			}
+		}
+		return append(defs, deps...) // loadable in this order
+	}
+	return side(1), side(6), last
+}
+
+// evolve: a later snapshot of the primary than `remote` (taken at index ri): some objects changed, deleted or
+// created, all with a modify index in (ri, ri2]
+func (g *gen) evolve(remote []Item, ri, ri2 uint64) []Item {
+	var out []Item
+	if ri2 == ri {
+		return append(out, remote...)
+	}
+	span := int(ri2 - ri)
+	for _, y := range remote {
+		switch g.r.Intn(5) {
+		case 0:
+			g.hashOf(y.Body+1000, &y)
+			y.Mod = ri + 1 + uint64(g.r.Intn(span))
+		case 1:
+			continue
+		}
+		out = append(out, y)
+	}
+	for _, k := range g.keys(g.r.Intn(3)) {
+		dup := false
+		for _, y := range remote {
+			if key(y) == key(k) {
+				dup = true
+			}
+		}
+		if !dup {
+			g.hashOf(uint64(30+g.r.Intn(5)), &k)
+			k.Mod = ri + 1 + uint64(g.r.Intn(span))
+			out = append(out, k)
+		}
+	}
+	return g.perm(out)
+}
+
+// otherSnapshot: what the batch reads see when a different server of the primary answers them: per object
+// the same version, an older one, a newer one, or nothing; remote2 is the later snapshot that contains the
+// newer versions
+func (g *gen) otherSnapshot(remote []Item, ri uint64) (batch, remote2 []Item) {
+	for _, y := range remote {
+		b, y2 := y, y
+		switch g.r.Intn(6) {
+		case 0: // older
+			if y.Mod > 1 {
+				g.hashOf(y.Body+2000, &b)
+				b.Mod = uint64(1 + g.r.Intn(int(y.Mod-1)))
+			}
+			batch = append(batch, b)
+		case 1: // newer
+			g.hashOf(y.Body+3000, &b)
+			b.Mod = ri + 1 + uint64(g.r.Intn(4))
+			batch = append(batch, b)
+			y2 = b
+		case 2: // the lagging server does not have it yet
+			if g.r.Intn(2) == 0 {
+				y.Create = y.Mod
+			}
+		default:
+			batch = append(batch, b)
+		}
+		remote2 = append(remote2, y2)
+	}
+	return
+}
+
+// realHashes replaces the harness-chosen hashes by the ones the real code computes for these objects
+func realHashes(inst string, l []Item) []Item {
+	out := make([]Item, len(l))
+	for i, x := range l {
+		r, err := consul.VerifReplRealHash(inst, x.raw())
+		if err != nil {
+			panic(err)
+		}
+		y := fromRaw(r)
+		y.Create = x.Create
+		out[i] = y
+	}
+	return out
 }
 
 // malformed additions for DIFF cases: empty ids, duplicates, hash collisions, nil / empty hashes
@@ -1003,7 +1489,20 @@ func main() {
 			os.Exit(2)
 		}
 		hist[fmt.Sprintf("%s/%s/%s", c.Kind, c.Inst, c.Class)]++
-		c.ToCoq = true
+		if strings.HasSuffix(c.Class, "-real-hash") && c.Oracle == "" {
+			if !c.Pre.HashSound {
+				c.Oracle, c.Sig = "real-hash-collision", map[string]interface{}{"kind": "hash-not-sound", "instance": c.Inst}
+			} else if !c.Pre.HashComplete && !c.Pre.ZeroHashEq {
+				for _, x := range c.Local {
+					for _, y := range c.Remote {
+						if key(x) == key(y) && x.Body == y.Body && !x.Local && !sameHash(c.Inst, x, y) {
+							c.Oracle, c.Sig = "real-hash-differs-for-equal-content:"+key(x), map[string]interface{}{"kind": "hash-not-functional", "instance": c.Inst}
+						}
+					}
+				}
+			}
+		}
+		c.ToCoq = modelCovers(&c)
 		if c.Oracle != "" && shrunk < 12 {
 			s := shrink(c)
 			s.ToCoq = false
@@ -1076,6 +1575,67 @@ func main() {
 			st, rem, last := g.synced(40 + rng.Intn(80))
 			st, rem = roundSafe(inst, st), roundSafe(inst, rem)
 			emit(Case{Kind: "round", Inst: inst, Class: "long", Local: st, Remote: rem, Last: last, RemoteIndex: last + 9})
+		}
+	}
+	// hashes computed by the real SetHash / HashConfigEntry instead of chosen by the harness: here "equal hashes
+	// mean equal content" and "equal content means equal hashes" are facts about the code, which the oracle checks
+	for rep := 0; rep < 8*mult; rep++ {
+		for _, inst := range []string{"token", "policy", "role", "config"} {
+			g := &gen{r: rng, inst: inst}
+			for k, f := range []func(int) ([]Item, []Item, uint64){g.synced, g.equal, g.unrelated} {
+				st, rem, last := f(rng.Intn(8))
+				st, rem = realHashes(inst, roundSafe(inst, st)), realHashes(inst, roundSafe(inst, rem))
+				cls := []string{"synced", "equal", "unrelated"}[k] + "-real-hash"
+				emit(Case{Kind: "diff", Inst: inst, Class: cls, Local: view(st), Remote: rem, Last: last})
+				emit(Case{Kind: "round", Inst: inst, Class: cls, Local: st, Remote: rem, Last: last, RemoteIndex: 60})
+			}
+		}
+	}
+	// rounds whose writes the state store may refuse
+	for rep := 0; rep < 12*mult; rep++ {
+		for _, inst := range []string{"policy", "role"} {
+			g := &gen{r: rng, inst: inst}
+			st, rem, last := g.rename()
+			st, rem = roundSafe(inst, st), roundSafe(inst, rem)
+			emit(Case{Kind: "round", Inst: inst, Class: "rename", Local: st, Remote: rem, Last: last, RemoteIndex: last + 6})
+		}
+		g := &gen{r: rng, inst: "config"}
+		st, rem, last := g.dependent()
+		emit(Case{Kind: "round", Inst: "config", Class: "dependent", Local: st, Remote: rem, Last: last, RemoteIndex: 12})
+	}
+	// two rounds in a row: the second runs with last := the index the first returned
+	for rep := 0; rep < 10*mult; rep++ {
+		for _, inst := range insts {
+			g := &gen{r: rng, inst: inst}
+			st, rem, last := g.synced(rng.Intn(8))
+			if rep%3 == 0 { // first round from nothing known: last = 0
+				st, rem, _ = g.unrelated(rng.Intn(7))
+				last = 0
+			}
+			st, rem = roundSafe(inst, st), roundSafe(inst, rem)
+			ri := uint64(60)
+			ri2 := ri
+			if rep%2 == 1 {
+				ri2 = ri + 1 + uint64(rng.Intn(6))
+			}
+			rem2 := roundSafe(inst, g.evolve(rem, ri, ri2))
+			cls := "two-rounds-changed"
+			if ri2 == ri {
+				cls = "two-rounds-same-index"
+			}
+			emit(Case{Kind: "round2", Inst: inst, Class: cls, Local: st, Remote: rem, Last: last, RemoteIndex: ri, Remote2: rem2, RemoteIndex2: ri2})
+		}
+	}
+	// the batch reads of a round answered from another snapshot of the primary than its list
+	for rep := 0; rep < 10*mult; rep++ {
+		for _, inst := range []string{"token", "policy"} {
+			g := &gen{r: rng, inst: inst}
+			st, rem, last := g.synced(1 + rng.Intn(7))
+			st, rem = roundSafe(inst, st), roundSafe(inst, rem)
+			ri := uint64(60)
+			batch, rem2 := g.otherSnapshot(rem, ri)
+			emit(Case{Kind: "twosnap", Inst: inst, Class: "two-snapshots", Local: st, Remote: rem, Last: last, RemoteIndex: ri,
+				Batch: batch, Remote2: rem2, RemoteIndex2: ri + 10})
 		}
 	}
 	// one round per ACL type that crosses the batching limits of deleteLocalACLType (4096 ids) and
